@@ -340,3 +340,117 @@ MUTANTS += [
  dict(name='c06-reciprocal-last-word', prop='C06', expect='glv|reciprocal',
       edits=[('src/bls12_381/curve_fast_multiply.cpp', '.std_words = {0xfc75349a, 0xf6dee1ae,', '.std_words = {0xfc753499, 0xf6dee1ae,')]),
 ]
+MUTANTS += [
+ dict(name='c07-digit-loop-le', prop='C07', expect='reject|powers|digit',
+      edits=[('src/bls12_381/decomposition.cpp', '} while (BigInt<64>::compare(this->c[i], bls_x) != -1);', '} while (BigInt<64>::compare(this->c[i], bls_x) == 1);')]),
+ dict(name='c07-outer-compare-against-R', prop='C07', expect='reject|powers|y',
+      edits=[('src/bls12_381/decomposition.cpp', '} while (BigInt<256>::compare(y, Fr::p_value) != -1);', '} while (BigInt<256>::compare(y, Fr::r_value) != -1);')]),
+ dict(name='c07-x-cubed-typo', prop='C07', expect='powers|recombination',
+      edits=[('src/bls12_381/decomposition.cpp', '0x00000000, 0x00010000, 0x76030000,', '0x00000000, 0x00010000, 0x76030001,')]),
+ dict(name='c07-bit-scan-from-62', prop='C07', expect='gtexp|bitrange',
+      edits=[('src/bls12_381/fq12_cyclotomic.cpp', 'for (int i = bls_x_highest_set_bit; i != -1; i--) {', 'for (int i = bls_x_highest_set_bit - 1; i != -1; i--) {')]),
+ dict(name='c10-fq-random-compare-gt', prop='C10', expect='reject|Fq::random',
+      edits=[('src/bls12_381/fq.cpp', '} while (BigInt<fq_bits>::compare(this->val, fq_modulus) >= 0);', '} while (BigInt<fq_bits>::compare(this->val, fq_modulus) > 0);')]),
+ dict(name='c10-zp_from_hash-no-reduce', prop='C10', expect='hashreduce',
+      edits=[('src/bls12_381/bls12_381.cpp', '    res->val.read_big_endian(static_cast<const uint8_t*>(hash));\n    res->hash_reduce();', '    res->val.read_big_endian(static_cast<const uint8_t*>(hash));')]),
+ dict(name='c10-hash-reduce-subtract-on-less', prop='C10', expect='hashreduce|Fr::hash_reduce',
+      edits=[('src/bls12_381/fr.cpp', 'if (BigInt<fr_bits>::compare(this->val, fr_modulus) == -1) {\n#ifdef RESIST_SIDE_CHANNELS\n            this->val.subtract(this->val, BigInt<bits>::zero);\n#endif\n        } else {', 'if (BigInt<fr_bits>::compare(this->val, fr_modulus) != 1) {\n#ifdef RESIST_SIDE_CHANNELS\n            this->val.subtract(this->val, BigInt<bits>::zero);\n#endif\n        } else {')]),
+ dict(name='c10-sample-generator-unchecked-point', prop='C10', expect='reject|point',
+      edits=[('src/bls12_381/curve.cpp', '} while (!random.get_point_from_x(x, (b & 0x1) == 0x1, true));', '} while (!random.get_point_from_x(x, (b & 0x1) == 0x1, false));')]),
+ dict(name='c10-sample-generator-no-identity-retry', prop='C10', expect='reject|nonidentity',
+      edits=[('src/bls12_381/curve.cpp', '        } while (result.is_zero());', '        } while (false);')]),
+ dict(name='c10-g1-cofactor-typo', prop='C10', expect='cofactor|g1',
+      edits=[('include/bls12_381/curve.hpp', '.std_words = { 0xaaab, 0x8c00aaab, 0x5555e156, 0x396c8c00 }', '.std_words = { 0xaaab, 0x8c00aaab, 0x5555e156, 0x396c8c01 }')]),
+ dict(name='c10-try-increment-by-R', prop='C10', benign=True, expect='',
+      edits=[('include/bls12_381/curve.hpp', '                x.add(x, BaseField::one);', '                x.add(x, BaseFieldType::one);')]),
+]
+MUTANTS += [
+ dict(name='c08-seed-retire-identity-pairs', prop='C08', patch='seeded/C01-retire-identity-pairs/patch.diff', expect='R-GUARD/G1'),
+ dict(name='c08-num-coeffs-minus-one', prop='C08', expect='ccl|producer-count',
+      edits=[('include/bls12_381/pairing.hpp', 'static constexpr unsigned int num_coeffs = bls_x_highest_set_bit + bls_x_num_set_bits - 1;', 'static constexpr unsigned int num_coeffs = bls_x_highest_set_bit + bls_x_num_set_bits - 2;')]),
+ dict(name='c08-prepared-addition-phase-no-increment', prop='C08', expect='ccl|consumer-count',
+      edits=[('src/bls12_381/pairing.cpp', """                    if (!pair.g1->is_zero() && !pair.g2->is_zero()) {
+                        ell(result, pair.g2->coeffs[pair.coeff_idx++], *pair.g1);
+                    }
+                }
+            }
+
+            result.square(result);""", """                    if (!pair.g1->is_zero() && !pair.g2->is_zero()) {
+                        ell(result, pair.g2->coeffs[pair.coeff_idx], *pair.g1);
+                    }
+                }
+            }
+
+            result.square(result);""")]),
+ dict(name='c08-coeff-idx-not-reset', prop='C08', expect='ccl|reset', 
+      edits=[('src/bls12_381/pairing.cpp', '            pair.coeff_idx = 0;\n', '            (void) pair;\n')]),
+ dict(name='c08-prepare-skips-bit-1', prop='C08', expect='ccl|',
+      edits=[('src/bls12_381/pairing.cpp', """        for (unsigned int i = bls_x_highest_set_bit - 1; i != 0; i--) {
+            miller_doubling_step(this->coeffs[coeff_idx++], r);""", """        for (unsigned int i = bls_x_highest_set_bit - 1; i != 1; i--) {
+            miller_doubling_step(this->coeffs[coeff_idx++], r);""")]),
+ dict(name='c08-pairing-product-no-final-exp-alias', prop='C08', expect='ccl|shape',
+      edits=[('include/bls12_381/pairing.hpp', """        miller_loop(result, affine_pairs, num_affine_pairs, prepared_pairs, num_prepared_pairs);
+        final_exponentiation(result, result);""", """        miller_loop(result, affine_pairs, num_prepared_pairs, prepared_pairs, num_affine_pairs);
+        final_exponentiation(result, result);""")]),
+]
+MUTANTS += [
+ dict(name='c14-encrypt-drops-rng', prop='C14', benign=False, expect='delegate|sign',
+      edits=[('src/wkdibe/api.cpp', 'sign_precomputed(signature, params, sk, attrs, precomputed, message, get_random_bytes);', 'sign_precomputed(signature, params, sk, nullptr, precomputed, message, get_random_bytes);')]),
+ dict(name='c14-merge-equal-advances-only-i', prop='C14', expect='merge|adjust_precomputed|equal',
+      edits=[('src/wkdibe/api.cpp', """                    precomputed.prodexp.add(precomputed.prodexp, temp);
+                }
+                i++;
+                j++;""", """                    precomputed.prodexp.add(precomputed.prodexp, temp);
+                    j++;
+                }
+                i++;""")]),
+ dict(name='c14-borrow-ignored', prop='C14', expect='modr|adjust_precomputed',
+      edits=[('src/wkdibe/api.cpp', """                    if (diff.subtract(to_attr.id, from_attr.id)) {
+                        diff.add(diff, group_order);
+                    }""", """                    diff.subtract(to_attr.id, from_attr.id);""")]),
+ dict(name='c14-drain-to-missing', prop='C14', expect='merge|drain',
+      edits=[('src/wkdibe/api.cpp', """        while (j != to.length) {
+            const Attribute& to_attr = to.attrs[j];
+            temp.multiply(params.h[to_attr.idx], to_attr.id);
+            precomputed.prodexp.add(precomputed.prodexp, temp);
+            j++;
+        }""", """        if (j != to.length) {
+            const Attribute& to_attr = to.attrs[j];
+            temp.multiply(params.h[to_attr.idx], to_attr.id);
+            precomputed.prodexp.add(precomputed.prodexp, temp);
+            j++;
+        }""")]),
+ dict(name='c16-decrypt-hashes-sk-instead-of-id', prop='C16', expect='hash|same-input',
+      edits=[('src/lqibe/api.cpp', """            bls12_381::pairing(result, sk.sq, ciphertext.rp);
+
+            buffer.q.encode(id.q);""", """            bls12_381::pairing(result, sk.sq, ciphertext.rp);
+
+            buffer.q.encode(sk.sq);""")]),
+ dict(name='c16-hashbuffer-padding', prop='C16', expect='hash|',
+      edits=[('src/lqibe/api.cpp', """        bls12_381::Encoding<G2Affine, true> rp;
+        uint8_t pairing[sizeof(GT)];
+    };""", """        bls12_381::Encoding<G2Affine, true> rp;
+        uint32_t version;
+        uint8_t pairing[sizeof(GT)];
+    };""")]),
+ dict(name='c16-encrypt-different-randomness', prop='C16', expect='roles|encrypt',
+      edits=[('src/lqibe/api.cpp', """        G2 rsp;
+        rsp.multiply_frobenius(params.sp, rx);""", """        G2 rsp;
+        bls12_381::PowersOfX rx2;
+        rx2.random(r, get_random_bytes);
+        rsp.multiply_frobenius(params.sp, rx2);""")]),
+ dict(name='c16-hash-length-half', prop='C16', expect='hash|call',
+      edits=[('src/lqibe/api.cpp', """            result.write_big_endian(buffer.pairing);
+        }
+
+        hash_fill(symmetric, symmetric_length, &buffer, sizeof(buffer));
+    }
+
+    void decrypt""", """            result.write_big_endian(buffer.pairing);
+        }
+
+        hash_fill(symmetric, symmetric_length, &buffer, sizeof(buffer.q) + sizeof(buffer.rp));
+    }
+
+    void decrypt""")]),
+]
